@@ -46,6 +46,27 @@ def r1_job(ctx, jm):
             bad = bad or (p, None, "a successful evaluation returns without writing the design to the store")
             continue
         s0 = sync[0]
+        # the store written to is the one attached to the problem NOW (a handle captured earlier goes stale when the
+        # store is attached or replaced after the Job was built)
+        for i_ in sync:
+            for c_ in calls_in(p.events[i_].node):
+                if (access_path(c_.func) or "").endswith(".sync_individual"):
+                    recv = access_path(PathEnv(jm.fn, p.events).expand_at(c_.func.value, i_)) or ""
+                    if recv == "%s.problem.data_store" % jm.selfn:
+                        continue
+                    init = jm.cls.methods.get("__init__")
+                    captured = None
+                    if init is not None and recv.startswith(jm.selfn + ".") and recv.count(".") == 1:
+                        me = func_params(init)[0]
+                        for st_ in stmts_of(init):
+                            if isinstance(st_, ast.Assign) and any(access_path(t_) == me + recv[len(jm.selfn):] for t_ in st_.targets) \
+                                    and (access_path(st_.value) or "").endswith("problem.data_store"):
+                                captured = st_
+                    if captured is not None:
+                        bad = bad or (p, p.events[i_].node, "the design is written through %s, a handle captured when the Job was constructed (%s): a store attached to the problem "
+                                      "afterwards never receives the per-design writes, so a crash loses designs whose evaluation had already returned" % (recv, text(captured).strip()))
+                    else:
+                        unknown = unknown or (p, "the store handle %s is not the problem's data_store read at evaluation time" % recv)
         for name, idx in (("costs", costs), ("signed costs", calc), ("EVALUATED state", evald)):
             if idx and idx[-1] > s0:
                 bad = bad or (p, p.events[idx[-1]].node, "the design is written to the store before its %s are final: a crash after the store call leaves a row that does not match the evaluated design" % name)
